@@ -42,6 +42,7 @@ def _atoms():
     add("x==K0|x==K1", lambda c, V, K: c.Or(V["x"] == K[0], V["x"] == K[1]), lambda V, K: z3.Or(V["x"] == K[0], V["x"] == K[1]))
     add("x!=K0", lambda c, V, K: V["x"] != K[0], lambda V, K: V["x"] != K[0])
     add("x!=K1", lambda c, V, K: V["x"] != K[1], lambda V, K: V["x"] != K[1])
+    add("x+1==K0", lambda c, V, K: V["x"] + 1 == K[0], lambda V, K: V["x"] + 1 == K[0])
     add("x+1<=K0", lambda c, V, K: c.ULE(V["x"] + 1, K[0]), lambda V, K: z3.ULE(V["x"] + 1, K[0]))
     add("y<=K2", lambda c, V, K: c.ULE(V["y"], K[2]), lambda V, K: z3.ULE(V["y"], K[2]))
     add("y==K1", lambda c, V, K: V["y"] == K[1], lambda V, K: V["y"] == K[1])
